@@ -136,13 +136,18 @@ fn read_float_array_value<'a>(src: &mut &'a [u8]) -> io::Result<Option<Value<'a>
 fn read_character_value<'a>(src: &mut &'a [u8]) -> io::Result<Option<Value<'a>>> {
     match read_typed_value(src)? {
         None | Some(TypedValue::String(None)) => Ok(None),
-        Some(TypedValue::String(Some(s))) => match s.len() {
-            1 => Ok(Some(Value::Character(s.chars().next().unwrap()))),
-            _ => Err(io::Error::new(
-                io::ErrorKind::InvalidData,
-                "invalid character value length",
-            )),
-        },
+        Some(TypedValue::String(Some(s))) => {
+            // exactly one character, which may take more than one byte
+            let mut chars = s.chars();
+
+            match (chars.next(), chars.next()) {
+                (Some(c), None) => Ok(Some(Value::Character(c))),
+                _ => Err(io::Error::new(
+                    io::ErrorKind::InvalidData,
+                    "invalid character value length",
+                )),
+            }
+        }
         v => Err(type_mismatch_error(v, Type::Character)),
     }
 }
@@ -402,6 +407,8 @@ mod tests {
 
         // Some(Value::String(Some(String::from("n"))))
         t(&[0x17, 0x6e], Some('n'));
+        // Some(Value::String(Some(String::from("é"))))
+        t(&[0x27, 0xc3, 0xa9], Some('é'));
     }
 
     #[test]
